@@ -26,6 +26,8 @@ def holdsPrint (i : Info) (outBytes : Bytes) : String :=
       s!"FAILS line_count: {lines.length} output lines for {lay.length} layout lines"
     else if (lines.zip lay).any (fun (l, n) => !(spaces n).isPrefixOf l) then
       "FAILS lines_eq_layout: a line is not indented according to its depth"
+    else if (lines.zip lay).any (fun (l, n) => leadingSpaces l != n || ((l.drop n).head?.map isSpaceRune).getD false) then
+      "FAILS indent_exact: a line goes on with white space after its structural indent: the content chooses its own indentation"
     else if runes.getLast? != some 10 then "FAILS line_count: output does not end with a newline"
     else "holds"
 
@@ -45,6 +47,8 @@ def handle (op : String) (args : List String) (impl : String) : Option (String Ã
                 "FAILS no_raw_control: a control character or stray byte of the file name reaches standard output unescaped"
               else if (b.filter (Â· = 10)).length â‰  1 then
                 s!"FAILS line_count: {(b.filter (Â· = 10)).length} output lines for a one-line report"
+              else if (match us.head? with | some (.rune r) => isSpaceRune r | _ => false) then
+                "FAILS indent_exact: the line of a top-level report starts with white space taken from the file name"
               else "holds"
             | none => "FAILS unparsable impl result"
           | _ => "FAILS unparsable impl result"
